@@ -6,6 +6,7 @@
 struct RngDev {
   int variant = 0;                                        // which compiled configuration of util-get-random-bytes.c
   std::map<std::string, std::vector<std::string>> script[8]; // per task, per source: outcomes of its next calls in this op
+  std::map<std::string, int> pinned_served[8];             // per task, per source: consecutive pinned outcomes served in the current op
   std::map<std::string, long> calls;
   std::set<std::string> failed_sources;                   // sources that have ever failed in this process (may be memoised as broken)
   std::map<int, int> open_fds;                            // simulated descriptor -> task that opened it
